@@ -329,4 +329,89 @@ theorem step_bounded (enc : τ → ν → Enc) (s : State τ) (st : Step τ ν) 
             omega
           · exact hadd
 
+/-! ### concurrent first uses of one statement -/
+namespace Conc
+open Routing
+
+def entryFresh (st : Stmt τ) (e : Entry τ) : Prop :=
+  match routingKeyInfo st.md st.schema with
+  | .info i => e = .info i
+  | .none => e = .nothing
+  | _ => False
+
+def Rel (st : Stmt τ) : Bool × CState τ ν → Bool × List (Nat × List ν) → Prop
+  | (p, .idle), (p', infl) => p = p' ∧ infl = []
+  | (p, .pending o ws), (p', infl) => p = false ∧ p' = false ∧ infl = o :: ws
+  | (p, .cached e), (p', infl) => p = true ∧ p' = true ∧ infl = [] ∧ entryFresh st e
+
+/-- the owner's computation answers every goroutine with the key of ITS values, and leaves a fresh entry (or none) -/
+theorem compute_spec (enc : τ → ν → Enc) (st : Stmt τ) (hcr : crashes st = false) (gs : List (Nat × List ν)) :
+    (compute enc st gs).1 = gs.map (fun p => (p.1, COut.res (getRoutingKey enc st.md st.schema p.2))) ∧
+    Rel st (true, (compute enc st gs).2) (true, ([] : List (Nat × List ν))) := by
+  unfold compute crashes at *
+  cases hr : routingKeyInfo st.md st.schema with
+  | crash => simp [hr] at hcr
+  | info i => simp [getRoutingKey_eq, hr, Rel, entryFresh]
+  | none => simp [getRoutingKey_eq, hr, Rel, entryFresh]
+  | errMeta => simp [getRoutingKey_eq, hr, Rel]
+
+theorem step_rel (enc : τ → ν → Enc) (st : Stmt τ) (hcr : crashes st = false)
+    (s : Bool × CState τ ν) (t : Bool × List (Nat × List ν)) (e : Ev ν) (h : Rel st s t) :
+    (step enc st s e).1 = (Spec.step enc st t e).1 ∧ Rel st (step enc st s e).2 (Spec.step enc st t e).2 := by
+  obtain ⟨p, cs⟩ := s
+  obtain ⟨p', infl⟩ := t
+  cases cs with
+  | idle =>
+    obtain ⟨hp, hi⟩ := h
+    subst hp; subst hi
+    cases e with
+    | go g vals =>
+      cases p with
+      | false => simp [step, Spec.step, Rel]
+      | true =>
+        obtain ⟨h1, h2⟩ := compute_spec enc st hcr [(g, vals)]
+        simp only [step, Spec.step]
+        exact ⟨by simpa using h1, h2⟩
+    | ansOk => cases p <;> simp [step, Spec.step, Rel]
+    | ansFail => cases p <;> simp [step, Spec.step, Rel]
+  | pending o ws =>
+    obtain ⟨hp, hp', hi⟩ := h
+    subst hp; subst hp'; subst hi
+    cases e with
+    | go g vals => simp [step, Spec.step, Rel]
+    | ansOk =>
+      obtain ⟨h1, h2⟩ := compute_spec enc st hcr (o :: ws)
+      simp only [step, Spec.step]
+      exact ⟨h1, h2⟩
+    | ansFail => simp [step, Spec.step, Rel]
+  | cached en =>
+    obtain ⟨hp, hp', hi, hf⟩ := h
+    subst hp; subst hp'; subst hi
+    cases e with
+    | go g vals =>
+      simp only [step, Spec.step]
+      refine ⟨?_, ⟨rfl, rfl, rfl, hf⟩⟩
+      unfold entryFresh at hf
+      rw [getRoutingKey_eq]
+      cases hr : routingKeyInfo st.md st.schema with
+      | info i => simp only [hr] at hf; simp [hf, entryKey]
+      | none => simp only [hr] at hf; simp [hf, entryKey]
+      | errMeta => simp [hr] at hf
+      | crash => simp [hr] at hf
+    | ansOk => exact ⟨by simp [step, Spec.step], by simpa [step, Spec.step, Rel] using hf⟩
+    | ansFail => exact ⟨by simp [step, Spec.step], by simpa [step, Spec.step, Rel] using hf⟩
+
+theorem run_spec (enc : τ → ν → Enc) (st : Stmt τ) (hcr : crashes st = false) (evs : List (Ev ν)) :
+    ∀ (s : Bool × CState τ ν) (t : Bool × List (Nat × List ν)), Rel st s t →
+      run enc st s evs = Spec.run enc st t evs := by
+  induction evs with
+  | nil => intro s t _; rfl
+  | cons e rest ih =>
+    intro s t h
+    obtain ⟨h1, h2⟩ := step_rel enc st hcr s t e h
+    simp only [run, Spec.run]
+    rw [h1, ih _ _ h2]
+
+end Conc
+
 end RoutingCache
